@@ -19,10 +19,13 @@ mod gen_term;
 mod mk;
 mod named;
 mod out;
+mod prog;
 mod rng;
 mod ser;
 mod suite_debruijn;
 mod suite_eval;
+mod suite_progstat;
+mod suite_lexer;
 
 use std::env;
 
@@ -43,6 +46,8 @@ fn main() {
             match suite.as_str() {
                 "debruijn" => suite_debruijn::run(&mut out, &tier, seed),
                 "eval" => suite_eval::run(&mut out, &tier, seed),
+                "lexer" => suite_lexer::run(&mut out, &tier, seed),
+                "progstat" => suite_progstat::run(&mut out, &tier, seed),
                 _ => {
                     eprintln!("unknown suite {suite}");
                     std::process::exit(2);
